@@ -15,7 +15,7 @@ func init() {
 	register("C01", checkC01)
 	describe("C01", Meta{
 		Technique: "symbolic instruction-field algebra (LAYOUT) comparing, per opcode, the bit slices of current_instruction in the Verilog templates and the instr[a:b] slices of Simulate with the fields the Assembler writes; index-source rule for opcode numbering; must-pass-through (path counting) of requirement bookkeeping behind every hardware-optimisation query",
-		Claim:     "Decides structural decode-agreement clauses of C01 for every opcode type: (a) each slice of current_instruction in the opcode's Verilog templates is the opcode field or exactly one field its Assembler writes (all four mode cases, symbolic in all widths), and each instr[a:b] the simulator's Simulate reads is such a field (Harvard mode); (b) the opcode number emitted by the encoder and by the localparam table is the index in the same Op list, with the opcode-bits width; (c) an opcode whose state machine prunes case arms by querying a requirement set (destregs, sourceregs …) records that set on every path of its HLAssemblerNormalize that accepts a line. A wrong bit-slice index, a swapped field or an incomplete register bookkeeping in any of the ~100 templates is reported. (OPKIND) a field decoded in Simulate indexes the VM array of the operand kind the Assembler put there (register / input / output). The semantics of each opcode (ALU, flags, timing), ROM/RAM models and threading are not decided.",
+		Claim:     "Decides structural decode-agreement clauses of C01 for every opcode type: (a) each slice of current_instruction in the opcode's Verilog templates is the opcode field or exactly one field its Assembler writes (all four mode cases, symbolic in all widths), and each instr[a:b] the simulator's Simulate reads is such a field (Harvard mode); (b) the opcode number emitted by the encoder and by the localparam table is the index in the same Op list, with the opcode-bits width; (c) an opcode whose state machine prunes case arms by querying a requirement set (destregs, sourceregs …) records that set on every path of its HLAssemblerNormalize that accepts a line. A wrong bit-slice index, a swapped field or an incomplete register bookkeeping in any of the ~100 templates is reported. (OPKIND) a field decoded in Simulate indexes the VM array of the operand kind the Assembler put there (register / input / output), and a Verilog template that selects on a field with `NAME : begin` labels uses the name function of that kind; (LITWIDTH) a sized literal W'b… of the label tables declares the width its digits are padded to. The semantics of each opcode (ALU, flags, timing), ROM/RAM models and threading are not decided.",
 		Note:      "Simulate is compared under mode 'ha' only (VM.Step fetches from Program.Slocs: the simulator is Harvard by construction). Single-bit slices [A] are accepted at the offset of a field whose width can be 1.",
 		DesignRef: "DESIGN.md §1.5, §2 C01",
 	})
@@ -142,6 +142,29 @@ func checkC01(r *core.Run) {
 				emit("L5", what, f, match(f), fmt.Sprintf("%s: the Verilog template %s slices current_instruction at %s, which is neither the opcode field nor a field the assembler writes %s: the hardware decodes other bits than the ones the program encodes (and than the simulator reads)", n, f.src, f, fieldsString(v.asm)))
 			}
 			if mode == "ha" {
+				// OPKIND (HDL side): a template that selects on a slice with labels NAME : begin built by a
+				// name function takes the slice for that kind of operand
+				for i, f := range v.hdl {
+					for _, u := range f.uses {
+						for k := range v.asm {
+							a := v.asm[k]
+							if !a.off.eq(f.off) || a.kind == "" || a.kind == "shared" || a.kind == "number" {
+								continue
+							}
+							inst := fmt.Sprintf("C01/OPKIND:%s:hdl%d:%s->%s", key, i, f.src, u)
+							if seen[inst] {
+								continue
+							}
+							seen[inst] = true
+							nKind++
+							if u == a.kind {
+								r.OK("C01/OPKIND", inst, prog.Pos(f.pos), "the template's case labels are "+u+" names, as the assembler's field")
+							} else {
+								r.Violation("C01/OPKIND", inst, prog.Pos(f.pos), fmt.Sprintf("%s.%s selects on the field %s with %s names as case labels, but the assembler fills that field with a %s operand: the hardware interprets the operand as another kind than the assembler and the simulator (the label constants of different kinds have different encodings and widths)", n, f.src, f, u, a.kind))
+							}
+						}
+					}
+				}
 				for i, f := range v.sim {
 					// OPKIND: a decoded field indexes the VM array of its own operand kind
 					for k := range v.asm {
@@ -177,6 +200,7 @@ func checkC01(r *core.Run) {
 	r.Count("simulate_instruction_slices", nSim)
 	r.Count("operand_kind_uses", nKind)
 	decodeWidth(r, prog, "C01")
+	c01LiteralWidth(r, prog)
 	c01OpNumbering(r, prog)
 	c01HwOptBookkeeping(r, prog)
 }
@@ -543,4 +567,79 @@ func witnessValuation(f lfield, asm []lfield) string {
 		}
 	}
 	return "no distinguishing valuation in the sample grid"
+}
+
+
+// c01LiteralWidth (C01/LITWIDTH): a sized Verilog literal <W>'b<bits> emitted by the generators as
+// strconv.Itoa(W1) + "'b" + zeros_prefix(W2, …) must have W1 == W2: with W1 < W2 the Verilog front end
+// truncates the constant (a port or register label then aliases another one and its case arm is never
+// taken), with W1 > W2 it is zero-extended. The hardware's label tables (registers, inputs, outputs,
+// opcodes) are such literals; the assembler and the simulator number the same things by plain index.
+func c01LiteralWidth(r *core.Run, prog *core.Program) {
+	pk := prog.Pkg("pkg/procbuilder")
+	info := pk.TypesInfo
+	n := 0
+	core.FuncDecls(pk, func(_ *ast.File, fd *ast.FuncDecl) {
+		if !strings.Contains(strings.ToLower(fd.Name.Name), "verilog") {
+			return
+		}
+		lc := &layoutCtx{pk: pk, info: info, mode: "ha"}
+		if fd.Recv != nil && len(fd.Recv.List) > 0 && len(fd.Recv.List[0].Names) > 0 {
+			lc.recv = info.ObjectOf(fd.Recv.List[0].Names[0])
+		}
+		k := 0
+		lc.walk(fd.Body.List, lenv{}, func(nd ast.Node, en lenv) {
+			inspectShallow(nd, func(m ast.Node) bool {
+				be, ok := m.(*ast.BinaryExpr)
+				if !ok || be.Op != token.ADD {
+					return true
+				}
+				var leaves []ast.Expr
+				flattenAdd(be, &leaves)
+				for i := 0; i+2 < len(leaves); i++ {
+					c1, ok := ast.Unparen(leaves[i]).(*ast.CallExpr)
+					if !ok || !core.IsFunc(core.CalleeOf(info, c1), "strconv", "Itoa") || len(c1.Args) != 1 {
+						continue
+					}
+					lit, ok := constStr(info, leaves[i+1])
+					if !ok || lit != "'b" {
+						continue
+					}
+					c2, ok := ast.Unparen(leaves[i+2]).(*ast.CallExpr)
+					if !ok || len(c2.Args) != 2 {
+						continue
+					}
+					if c := core.CalleeOf(info, c2); c == nil || c.Name() != "zeros_prefix" {
+						continue
+					}
+					k++
+					n++
+					inst := fmt.Sprintf("C01/LITWIDTH:%s:lit%d", core.FuncKey(pk, fd), k)
+					w1, w2 := lc.eval(c1.Args[0], en), lc.eval(c2.Args[0], en)
+					same := w1.eq(w2) || types.ExprString(ast.Unparen(stripIntConv(info, c1.Args[0]))) == types.ExprString(ast.Unparen(stripIntConv(info, c2.Args[0])))
+					if same {
+						r.OK("C01/LITWIDTH", inst, prog.Pos(c1.Pos()), "declared width and number of digits are the same expression")
+					} else {
+						r.Violation("C01/LITWIDTH", inst, prog.Pos(c1.Pos()), fmt.Sprintf("%s emits a sized literal whose declared width is %s (%s) but whose digits are padded to %s (%s): when the two differ the Verilog constant is truncated or extended, so the label it defines no longer has the value the assembler and the simulator use for that register/port/opcode (its case arm is never taken, or another's is)", core.FuncKey(pk, fd), types.ExprString(c1.Args[0]), w1, types.ExprString(c2.Args[0]), w2))
+					}
+				}
+				return false
+			})
+		})
+	})
+	r.Count("sized_literals", n)
+}
+
+// stripIntConv removes int(…)/uint8(…) conversions around an expression.
+func stripIntConv(info *types.Info, e ast.Expr) ast.Expr {
+	for {
+		call, ok := ast.Unparen(e).(*ast.CallExpr)
+		if !ok || len(call.Args) != 1 {
+			return e
+		}
+		if tv, ok := info.Types[call.Fun]; !ok || !tv.IsType() {
+			return e
+		}
+		e = call.Args[0]
+	}
 }
